@@ -136,8 +136,8 @@ def nodesWf : List Node → Bool
   | n :: ns => nodeWf n && nodesWf ns
 end
 
-def Grammar.wf (G : Grammar) : Bool := G.rules.all (fun p => nodeWf p.2)
-def Grammar.typed (G : Grammar) (isBytes : Bool) : Bool := G.rules.all (fun p => nodeTyped isBytes p.2)
+def _root_.FV.Grammar.wf (G : Grammar) : Bool := G.rules.all (fun p => nodeWf p.2)
+def _root_.FV.Grammar.typed (G : Grammar) (isBytes : Bool) : Bool := G.rules.all (fun p => nodeTyped isBytes p.2)
 
 /-- the regex oracle of the scanner (greedy length) only returns lengths whose slice the full-match
     oracle accepts, and never more than is left -/
